@@ -101,19 +101,62 @@ theorem lex_ws_end {c : Rune} {rest v : List Rune} {ln tl : Nat} {acc : List Tok
     simp [heredocStart_false hv, rBS, rCR, rNL, isSpace, countNL, hlen, NextSt.mk']
   · simp [heredocStart_false hv, rBS, rCR, rNL, hsp, h13, h92, hnl, countNL, hlen, NextSt.mk']
 
+/-! ### comments in the lexer -/
+
+/-- `#` at the start of a token switches comment mode on -/
+theorem lex_hash {rest : List Rune} {l : LexSt} {acc : List Token} :
+    lexLoop (rHash :: rest) l {} acc = lexLoop rest l { comment := true } acc := by
+  rw [lexLoop]
+  simp [NextSt.heredocStart, rBS, rHash, isSpace]
+
+/-- in comment mode everything up to the newline is skipped (no backslash: it would make the
+    newline a line continuation) -/
+theorem lex_comment_text : ∀ (t rest : List Rune) (l : LexSt) (acc : List Token), t.all cmtCh = true →
+    lexLoop (t ++ rest) l { comment := true } acc = lexLoop rest l { comment := true } acc
+  | [], _, _, _, _ => rfl
+  | c :: t, rest, l, acc, h => by
+    simp only [List.all_cons, Bool.and_eq_true] at h
+    obtain ⟨h10, h96, h92⟩ := cmtCh_spec h.1
+    rw [List.cons_append, lexLoop]
+    have ih := lex_comment_text t rest l acc h.2
+    by_cases hsp : isSpace c = true
+    · by_cases h13 : c = 13
+      · subst h13
+        simp [NextSt.heredocStart, rBS, rCR, isSpace]
+        exact ih
+      · simp [NextSt.heredocStart, rBS, rCR, rNL, hsp, h13, h10, h92]
+        exact ih
+    · simp [NextSt.heredocStart, rBS, hsp, h92]
+      exact ih
+
+/-- the newline ends the comment and the line -/
+theorem lex_comment_nl {rest : List Rune} {ln : Nat} {acc : List Token} :
+    lexLoop (rNL :: rest) ⟨ln, 0⟩ { comment := true } acc = lexLoop rest ⟨ln + 1, 0⟩ {} acc := by
+  rw [lexLoop]
+  simp [NextSt.heredocStart, rBS, rCR, rNL, isSpace]
+
 /-! ### the lexer over chunk lists -/
 
-/-- what the lexer needs of a chunk list: separators are non-CR white space (non-empty except
-    possibly the first), words are non-empty runs of word characters -/
-def lexGood : Bool → List Chunk → Bool
-  | _, [] => true
-  | first, c :: cs =>
-    c.sep.all wsCh && !c.word.isEmpty && c.word.all lexCh && (first || !c.sep.isEmpty) && lexGood false cs
+/-- the word is a comment -/
+def isCmtW (w : List Rune) : Bool := w.head? == some rHash
 
-/-- the tokens of a chunk list whose first separator starts on line `ln` -/
+/-- what the lexer needs of a chunk list: separators are non-CR white space (non-empty except
+    possibly the first; starting with the newline after a comment), words are comments or
+    non-empty runs of word characters -/
+def lexGood : (first afterCmt : Bool) → List Chunk → Bool
+  | _, _, [] => true
+  | first, afterCmt, c :: cs =>
+    c.sep.all wsCh && (first || !c.sep.isEmpty) && (!afterCmt || c.sep.head? == some rNL) &&
+    (match c.word with
+     | [] => false
+     | h :: t => (h == rHash && t.all cmtCh) || (h :: t).all lexCh) &&
+    lexGood false (isCmtW c.word) cs
+
+/-- the tokens of a chunk list whose first separator starts on line `ln` (comments give none) -/
 def toksOf : Nat → List Chunk → List Token
   | _, [] => []
-  | ln, c :: cs => ⟨ln + c.nl, c.word, 0, []⟩ :: toksOf (ln + c.nl) cs
+  | ln, c :: cs =>
+    if isCmtW c.word then toksOf (ln + c.nl) cs else ⟨ln + c.nl, c.word, 0, []⟩ :: toksOf (ln + c.nl) cs
 
 /-- trailing white space, with or without a token in progress -/
 theorem lex_trail_fresh (trail : List Rune) (ln : Nat) (acc : List Token) (h : trail.all wsCh = true) :
@@ -136,22 +179,47 @@ theorem lex_trail_pending (trail v : List Rune) (ln tl : Nat) (acc : List Token)
     simp only [List.all_cons, Bool.and_eq_true] at h
     rw [lex_ws_end h.1 hv hne, lex_trail_fresh ws _ _ h.2]
 
+theorem wsCh_cmtCh {c : Rune} (h : wsCh c = true) (hnl : c ≠ 10) : cmtCh c = true := by
+  obtain ⟨-, -, -, -, -, h92, h96, -, -⟩ := wsCh_spec h
+  simp [cmtCh, rNL, rBQ, rBS, hnl, h92, h96]
+
+theorem lex_trail_comment : ∀ (trail : List Rune) (ln : Nat) (acc : List Token), trail.all wsCh = true →
+    lexLoop trail ⟨ln, 0⟩ { comment := true } acc = .ok acc
+  | [], _, _, _ => by rw [lexLoop]; simp
+  | c :: ws, ln, acc, h => by
+    simp only [List.all_cons, Bool.and_eq_true] at h
+    by_cases hnl : c = 10
+    · subst hnl
+      rw [show (10 : Rune) = rNL from rfl, lex_comment_nl, lex_trail_fresh ws _ _ h.2]
+    · have := lex_comment_text [c] ws ⟨ln, 0⟩ acc (by simp [wsCh_cmtCh h.1 hnl])
+      rw [List.singleton_append] at this
+      rw [this, lex_trail_comment ws ln acc h.2]
+
 theorem toksOf_shift (ln : Nat) (a : Rune) (ws w : List Rune) (cs : List Chunk) :
     toksOf (ln + countNL [a]) (⟨ws, w⟩ :: cs) = toksOf ln (⟨a :: ws, w⟩ :: cs) := by
   simp only [toksOf, Chunk.nl, countNL]
   have : ln + ((if a = rNL then 1 else 0) + 0) + countNL ws = ln + ((if a = rNL then 1 else 0) + countNL ws) := by omega
   rw [this]
 
+theorem lexGood_retarget {a : Rune} {ws : List Rune} {c : Chunk} {cs : List Chunk} {ac : Bool}
+    (hcs : c.sep = a :: ws) (hg : lexGood false ac (c :: cs) = true) :
+    lexGood true false (⟨ws, c.word⟩ :: cs) = true ∧ wsCh a = true := by
+  simp only [lexGood, Bool.and_eq_true, hcs, List.all_cons] at hg ⊢
+  obtain ⟨⟨⟨⟨⟨ha, hws⟩, -⟩, -⟩, hw⟩, hrest⟩ := hg
+  exact ⟨⟨⟨⟨⟨hws, by simp⟩, by simp⟩, hw⟩, hrest⟩, ha⟩
+
 /-- **the lexer on a chunk list**, by induction on its length: (A) from a fresh state,
-    (B) with the previous word still in `val` -/
+    (B) with the previous word still in `val`, (C) inside the previous comment -/
 theorem lex_chunks (trail : List Rune) (ht : trail.all wsCh = true) : ∀ (n : Nat),
-    (∀ (cs : List Chunk) (first : Bool) (ln : Nat) (acc : List Token), cs.length = n → lexGood first cs = true →
+    (∀ (cs : List Chunk) (first : Bool) (ln : Nat) (acc : List Token), cs.length = n → lexGood first false cs = true →
       lexLoop (flatten cs ++ trail) ⟨ln, 0⟩ {} acc = .ok (acc ++ toksOf ln cs)) ∧
-    (∀ (cs : List Chunk) (v : List Rune) (ln tl : Nat) (acc : List Token), cs.length = n → lexGood false cs = true →
+    (∀ (cs : List Chunk) (v : List Rune) (ln tl : Nat) (acc : List Token), cs.length = n → lexGood false false cs = true →
       v.all lexCh = true → v ≠ [] →
-      lexLoop (flatten cs ++ trail) ⟨ln, 0⟩ { val := v, tokLine := tl } acc = .ok (acc ++ ⟨tl, v, 0, []⟩ :: toksOf ln cs))
+      lexLoop (flatten cs ++ trail) ⟨ln, 0⟩ { val := v, tokLine := tl } acc = .ok (acc ++ ⟨tl, v, 0, []⟩ :: toksOf ln cs)) ∧
+    (∀ (cs : List Chunk) (ln : Nat) (acc : List Token), cs.length = n → lexGood false true cs = true →
+      lexLoop (flatten cs ++ trail) ⟨ln, 0⟩ { comment := true } acc = .ok (acc ++ toksOf ln cs))
   | 0 => by
-    constructor
+    refine ⟨?_, ?_, ?_⟩
     · intro cs first ln acc hl _
       have : cs = [] := List.length_eq_zero_iff.mp hl
       subst this
@@ -162,88 +230,170 @@ theorem lex_chunks (trail : List Rune) (ht : trail.all wsCh = true) : ∀ (n : N
       subst this
       simp only [flatten, List.nil_append, toksOf]
       exact lex_trail_pending trail v ln tl acc ht hv hne
+    · intro cs ln acc hl _
+      have : cs = [] := List.length_eq_zero_iff.mp hl
+      subst this
+      simp only [flatten, List.nil_append, toksOf, List.append_nil]
+      exact lex_trail_comment trail ln acc ht
   | n + 1 => by
-    obtain ⟨ihA, ihB⟩ := lex_chunks trail ht n
+    obtain ⟨ihA, ihB, ihC⟩ := lex_chunks trail ht n
     -- (A) for length n+1
     have hA : ∀ (cs : List Chunk) (first : Bool) (ln : Nat) (acc : List Token), cs.length = n + 1 →
-        lexGood first cs = true →
+        lexGood first false cs = true →
         lexLoop (flatten cs ++ trail) ⟨ln, 0⟩ {} acc = .ok (acc ++ toksOf ln cs) := by
       intro cs first ln acc hl hg
       match cs, hl, hg with
       | c :: cs, hl, hg =>
-        simp only [lexGood, Bool.and_eq_true, Bool.not_eq_true', List.isEmpty_eq_false_iff] at hg
-        obtain ⟨⟨⟨⟨hsep, hwne⟩, hw⟩, _⟩, hrest⟩ := hg
+        simp only [lexGood, Bool.and_eq_true] at hg
+        obtain ⟨⟨⟨⟨hsep, -⟩, -⟩, hw⟩, hrest⟩ := hg
         have hlen : cs.length = n := by simpa using hl
         cases hcw : c.word with
-        | nil => exact absurd hcw hwne
+        | nil => rw [hcw] at hw; simp at hw
         | cons a w =>
-          rw [hcw] at hw
-          simp only [List.all_cons, Bool.and_eq_true] at hw
+          rw [hcw] at hw hrest
           have e1 : flatten (c :: cs) ++ trail = c.sep ++ ((a :: w) ++ (flatten cs ++ trail)) := by
             simp [flatten, hcw, List.append_assoc]
-          rw [e1, lex_ws_fresh c.sep _ ln acc hsep, lex_word_fresh hw.1 hw.2,
-            ihB cs (a :: w) (ln + countNL c.sep) (ln + countNL c.sep) acc hlen hrest (by simp [hw.1, hw.2]) (by simp)]
-          simp [toksOf, Chunk.nl, hcw]
-    refine ⟨hA, ?_⟩
-    -- (B) for length n+1: the first separator is non-empty; its first character ends the token
-    intro cs v ln tl acc hl hg hv hne
-    match cs, hl, hg with
-    | c :: cs, hl, hg =>
-      have hg' := hg
-      simp only [lexGood, Bool.and_eq_true, Bool.not_eq_true', List.isEmpty_eq_false_iff, Bool.false_or] at hg
-      obtain ⟨⟨⟨⟨hsep, hwne⟩, hw⟩, hsne⟩, hrest⟩ := hg
-      cases hcs : c.sep with
-      | nil => exact absurd hcs hsne
-      | cons a ws =>
-        rw [hcs] at hsep
-        simp only [List.all_cons, Bool.and_eq_true] at hsep
-        have e1 : flatten (c :: cs) ++ trail = a :: (flatten (⟨ws, c.word⟩ :: cs) ++ trail) := by
-          simp [flatten, hcs, List.append_assoc]
-        have hg2 : lexGood true (⟨ws, c.word⟩ :: cs) = true := by
-          simp only [lexGood, Bool.and_eq_true, Bool.not_eq_true', List.isEmpty_eq_false_iff, Bool.true_or, and_true]
-          exact ⟨⟨⟨hsep.2, hwne⟩, hw⟩, hrest⟩
-        rw [e1, lex_ws_end hsep.1 hv hne, hA (⟨ws, c.word⟩ :: cs) true _ _ (by simpa using hl) hg2, toksOf_shift]
-        have : (⟨a :: ws, c.word⟩ : Chunk) = c := by cases c; simp_all
-        rw [this]; simp
+          rw [e1, lex_ws_fresh c.sep _ ln acc hsep]
+          by_cases hcm : a = rHash
+          · -- a comment: no token
+            subst hcm
+            have hw' : w.all cmtCh = true := by
+              simp only [Bool.or_eq_true, Bool.and_eq_true, beq_self_eq_true, true_and, List.all_cons] at hw
+              rcases hw with hw | hw
+              · exact hw
+              · have : lexCh rHash = false := by decide
+                rw [this] at hw; simp at hw
+            have hic : isCmtW (rHash :: w) = true := by simp [isCmtW]
+            rw [hic] at hrest
+            rw [List.cons_append, lex_hash, lex_comment_text w _ _ _ hw', ihC cs _ acc hlen hrest]
+            simp [toksOf, Chunk.nl, hcw, hic]
+          · have hne : (a == rHash) = false := by simp [hcm]
+            simp only [hne, Bool.false_and, Bool.false_or, List.all_cons, Bool.and_eq_true] at hw
+            have hic : isCmtW (a :: w) = false := by simp [isCmtW, hcm]
+            rw [hic] at hrest
+            rw [lex_word_fresh hw.1 hw.2,
+              ihB cs (a :: w) (ln + countNL c.sep) (ln + countNL c.sep) acc hlen hrest (by simp [hw.1, hw.2]) (by simp)]
+            simp [toksOf, Chunk.nl, hcw, hic]
+    refine ⟨hA, ?_, ?_⟩
+    · -- (B) for length n+1: the first separator is non-empty; its first character ends the token
+      intro cs v ln tl acc hl hg hv hne
+      match cs, hl, hg with
+      | c :: cs, hl, hg =>
+        cases hcs : c.sep with
+        | nil => simp [lexGood, hcs] at hg
+        | cons a ws =>
+          obtain ⟨hg2, ha⟩ := lexGood_retarget hcs hg
+          have e1 : flatten (c :: cs) ++ trail = a :: (flatten (⟨ws, c.word⟩ :: cs) ++ trail) := by
+            simp [flatten, hcs, List.append_assoc]
+          rw [e1, lex_ws_end ha hv hne, hA (⟨ws, c.word⟩ :: cs) true _ _ (by simpa using hl) hg2, toksOf_shift]
+          have : (⟨a :: ws, c.word⟩ : Chunk) = c := by cases c; simp_all
+          rw [this]; simp
+    · -- (C) for length n+1: the separator starts with the newline that ends the comment
+      intro cs ln acc hl hg
+      match cs, hl, hg with
+      | c :: cs, hl, hg =>
+        cases hcs : c.sep with
+        | nil => simp [lexGood, hcs] at hg
+        | cons a ws =>
+          obtain ⟨hg2, -⟩ := lexGood_retarget hcs hg
+          have ha : a = rNL := by
+            simp only [lexGood, Bool.and_eq_true, hcs, List.head?_cons, Bool.not_true, Bool.false_or, beq_iff_eq,
+              Option.some.injEq] at hg
+            exact hg.1.1.2
+          subst ha
+          have e1 : flatten (c :: cs) ++ trail = rNL :: (flatten (⟨ws, c.word⟩ :: cs) ++ trail) := by
+            simp [flatten, hcs, List.append_assoc]
+          rw [e1, lex_comment_nl, hA (⟨ws, c.word⟩ :: cs) true _ _ (by simpa using hl) hg2]
+          have := toksOf_shift ln rNL ws c.word cs
+          simp only [countNL, ↓reduceIte, Nat.add_zero] at this
+          rw [this]
+          have : (⟨rNL :: ws, c.word⟩ : Chunk) = c := by cases c; simp_all
+          rw [this]
 
 /-! ### from `goodFrom` to `lexGood`, and the canonical rendering -/
 
-theorem wordOK_lex {c : Chunk} (hw : c.wordOK = true) : c.word ≠ [] ∧ c.word.all lexCh = true := by
+theorem kind_cmt_iff (c : Chunk) : (c.kind = .cmt) ↔ isCmtW c.word = true := by
+  unfold Chunk.kind isCmtW
+  split
+  · rename_i h; rw [h]; simp [rOpen, rHash]
+  · split
+    · rename_i h; rw [h]; simp [rClose, rHash]
+    · split <;> simp_all
+
+theorem wordOK_lex {c : Chunk} (hw : c.wordOK = true) :
+    (match c.word with
+     | [] => false
+     | h :: t => (h == rHash && t.all cmtCh) || (h :: t).all lexCh) = true := by
   unfold Chunk.wordOK at hw
-  simp only [Bool.or_eq_true, beq_iff_eq, Bool.and_eq_true, Bool.not_eq_true'] at hw
+  simp only [Bool.or_eq_true, beq_iff_eq] at hw
   rcases hw with (hw | hw) | hw
-  · rw [hw]; exact ⟨by simp, by decide⟩
-  · rw [hw]; exact ⟨by simp, by decide⟩
-  · refine ⟨by intro h; simp [h] at hw, ?_⟩
-    have hall : ∀ x ∈ c.word, plainCh x = true := by simpa [List.all_eq_true] using hw.2
-    simp only [List.all_eq_true]
-    intro x hx
-    simp [lexCh, hall x hx]
+  · rw [hw]; decide
+  · rw [hw]; decide
+  · cases hcw : c.word with
+    | nil => simp [hcw] at hw
+    | cons h t =>
+      rw [hcw] at hw
+      simp only [Bool.or_eq_true, Bool.and_eq_true, beq_iff_eq, Bool.not_eq_true'] at hw
+      simp only [Bool.or_eq_true, Bool.and_eq_true, beq_iff_eq]
+      rcases hw with hw | hw
+      · exact Or.inl hw.1
+      · right
+        have hall : ∀ x ∈ h :: t, plainCh x = true := by
+          intro x hx
+          simp only [List.mem_cons] at hx
+          rcases hx with rfl | hx
+          · exact hw.1
+          · exact (List.all_eq_true.mp hw.2) x hx
+        simp only [List.all_eq_true]
+        intro x hx
+        simp [lexCh, hall x hx]
 
 theorem good_lexGood : ∀ (cs : List Chunk) (prev : Option Kind), goodFrom prev cs = true →
-    lexGood (prev == none) cs = true
+    lexGood (prev == none) (prev == some .cmt) cs = true
   | [], _, _ => rfl
   | c :: cs, prev, hg => by
     have hrest := good_lexGood cs (some c.kind) (by simp only [goodFrom, Bool.and_eq_true] at hg; exact hg.2)
     simp only [goodFrom, Bool.and_eq_true] at hg
     obtain ⟨⟨⟨hsep, hw⟩, hcond⟩, -⟩ := hg
-    obtain ⟨hne, hall⟩ := wordOK_lex hw
-    simp only [lexGood, Bool.and_eq_true, Bool.not_eq_true', List.isEmpty_eq_false_iff, Bool.or_eq_true]
-    refine ⟨⟨⟨⟨hsep, hne⟩, hall⟩, ?_⟩, by simpa using hrest⟩
-    cases prev with
-    | none => left; rfl
-    | some k =>
-      right
-      cases k with
-      | plain =>
-        simp only [Bool.and_eq_true, Bool.not_eq_true', List.isEmpty_eq_false_iff] at hcond
-        exact hcond.1
-      | opn =>
-        simp only [Bool.and_eq_true, decide_eq_true_eq] at hcond
-        exact countNL_pos_ne_nil hcond.1
-      | cls =>
-        simp only [Bool.and_eq_true, decide_eq_true_eq] at hcond
-        exact countNL_pos_ne_nil hcond.1
+    have hflag : (some c.kind == some Kind.cmt) = isCmtW c.word := by
+      by_cases h : c.kind = .cmt
+      · rw [(kind_cmt_iff c).mp h, h]; rfl
+      · have : isCmtW c.word = false := by
+          cases hi : isCmtW c.word with
+          | true => exact absurd ((kind_cmt_iff c).mpr hi) h
+          | false => rfl
+        rw [this]
+        cases hk : c.kind <;> simp_all
+    rw [hflag, show (some c.kind == none) = false from rfl] at hrest
+    simp only [lexGood, Bool.and_eq_true]
+    refine ⟨⟨⟨⟨hsep, ?_⟩, ?_⟩, wordOK_lex hw⟩, hrest⟩
+    · cases prev with
+      | none => rfl
+      | some k =>
+        simp only [show (some k == none) = false from rfl, Bool.false_or, Bool.not_eq_true', List.isEmpty_eq_false_iff]
+        cases k with
+        | plain =>
+          simp only [Bool.and_eq_true, Bool.not_eq_true', List.isEmpty_eq_false_iff] at hcond
+          exact hcond.1
+        | opn =>
+          simp only [Bool.and_eq_true, decide_eq_true_eq] at hcond
+          exact countNL_pos_ne_nil hcond.1
+        | cls =>
+          simp only [Bool.and_eq_true, decide_eq_true_eq] at hcond
+          exact countNL_pos_ne_nil hcond.1
+        | cmt =>
+          simp only [Bool.and_eq_true, beq_iff_eq] at hcond
+          intro h; rw [h] at hcond; simp at hcond
+    · cases prev with
+      | none => rfl
+      | some k =>
+        cases k with
+        | cmt =>
+          simp only [Bool.and_eq_true] at hcond
+          simp [hcond.1]
+        | plain => rfl
+        | opn => rfl
+        | cls => rfl
 
 theorem countNL_append (a b : List Rune) : countNL (a ++ b) = countNL a + countNL b := by
   induction a with
@@ -275,36 +425,48 @@ theorem canonSep_all_ws (prev : Option Kind) (N : Nat) (c : Chunk) : (canonSep p
   | none => rfl
   | some k =>
     cases k <;> cases hk : c.kind <;>
-      simp only [canonSep, hk, List.all_cons, List.all_nil, wsCh_NL, wsCh_SP, all_ws_tabsN, Bool.and_self] <;>
-      (split <;> simp only [List.all_cons, List.all_nil, List.all_append, wsCh_SP, all_ws_tabsN, all_ws_nlsN, Bool.and_self])
+      simp only [canonSep, hk, List.all_cons, List.all_nil, List.all_append, wsCh_NL, wsCh_SP, all_ws_tabsN,
+        all_ws_nlsN, Bool.and_self, reduceCtorEq, ↓reduceIte] <;>
+      (try (split <;> simp only [List.all_cons, List.all_nil, List.all_append, wsCh_SP, all_ws_tabsN, all_ws_nlsN,
+        Bool.and_self]))
 
-/-- the canonical separator: non-CR white space, newline iff the original had one -/
+/-- the canonical separator: non-CR white space, newline iff the original had one, starting
+    with a newline after a comment -/
 theorem canonSep_props {prev : Option Kind} {N : Nat} {c : Chunk} {cs : List Chunk}
     (hg : goodFrom prev (c :: cs) = true) :
     (canonSep prev N c).all wsCh = true ∧
       (prev ≠ none → canonSep prev N c ≠ [] ∧ (0 < countNL (canonSep prev N c) ↔ 0 < c.nl)) ∧
-      (prev = none → canonSep prev N c = []) := by
+      (prev = none → canonSep prev N c = [] ∧ c.nl = 0) ∧
+      (prev = some .cmt → (canonSep prev N c).head? = some rNL) := by
   simp only [goodFrom, Bool.and_eq_true] at hg
   obtain ⟨⟨⟨-, -⟩, hcond⟩, -⟩ := hg
   cases prev with
-  | none => exact ⟨rfl, fun h => absurd rfl h, fun _ => rfl⟩
+  | none =>
+    simp only [Bool.and_eq_true, List.isEmpty_iff] at hcond
+    exact ⟨rfl, fun h => absurd rfl h, fun _ => ⟨rfl, by simp [Chunk.nl, hcond.1, countNL]⟩, fun h => by cases h⟩
   | some k =>
-    refine ⟨canonSep_all_ws _ _ _, fun _ => ?_, fun h => by cases h⟩
-    · cases k with
+    refine ⟨canonSep_all_ws _ _ _, fun _ => ?_, fun h => absurd h (by simp), fun hk => ?_⟩
+    · -- non-empty, and newline iff newline
+      have hplainlike : ∀ (hsome : c.nl = 0 ∨ 0 < c.nl),
+          (if c.nl = 0 then [rSP] else nlsN (min c.nl 2) ++ tabsN N) ≠ [] ∧
+          (0 < countNL (if c.nl = 0 then [rSP] else nlsN (min c.nl 2) ++ tabsN N) ↔ 0 < c.nl) := by
+        intro _
+        by_cases hnl : c.nl = 0
+        · simp [hnl, countNL, rSP, rNL]
+        · have : min c.nl 2 ≠ 0 := by omega
+          refine ⟨?_, ?_⟩
+          · simp only [hnl, ↓reduceIte]
+            intro h
+            have := congrArg countNL h
+            rw [countNL_append, countNL_nlsN, countNL_tabsN] at this
+            simp [countNL] at this; omega
+          · simp only [hnl, ↓reduceIte, countNL_append, countNL_nlsN, countNL_tabsN]; omega
+      cases k with
       | plain =>
         simp only [Bool.and_eq_true, Bool.not_eq_true', List.isEmpty_eq_false_iff] at hcond
         cases hk : c.kind with
-        | plain =>
-          by_cases hnl : c.nl = 0
-          · simp [canonSep, hk, hnl, countNL, rSP, rNL]
-          · have : min c.nl 2 ≠ 0 := by omega
-            refine ⟨?_, ?_⟩
-            · simp only [canonSep, hk, hnl, ↓reduceIte]
-              intro h
-              have := congrArg countNL h
-              rw [countNL_append, countNL_nlsN, countNL_tabsN] at this
-              simp [countNL] at this; omega
-            · simp only [canonSep, hk, hnl, ↓reduceIte, countNL_append, countNL_nlsN, countNL_tabsN]; omega
+        | plain => simpa [canonSep, hk] using hplainlike (by omega)
+        | cmt => simpa [canonSep, hk] using hplainlike (by omega)
         | opn =>
           rw [hk] at hcond
           simp only [beq_iff_eq] at hcond
@@ -320,23 +482,35 @@ theorem canonSep_props {prev : Option Kind} {N : Nat} {c : Chunk} {cs : List Chu
         exact ⟨by simp, by simp; omega⟩
       | cls =>
         simp only [Bool.and_eq_true, decide_eq_true_eq, bne_iff_ne, ne_eq] at hcond
-        have hnl : c.nl ≠ 0 := by omega
         cases hk : c.kind with
-        | plain =>
-          have : min c.nl 2 ≠ 0 := by omega
-          refine ⟨?_, ?_⟩
-          · simp only [canonSep, hk, hnl, ↓reduceIte]
-            intro h
-            have := congrArg countNL h
-            rw [countNL_append, countNL_nlsN, countNL_tabsN] at this
-            simp [countNL] at this; omega
-          · simp only [canonSep, hk, hnl, ↓reduceIte, countNL_append, countNL_nlsN, countNL_tabsN]; omega
+        | plain => simpa [canonSep, hk] using hplainlike (by omega)
+        | cmt => simpa [canonSep, hk] using hplainlike (by omega)
         | opn => exact absurd hk hcond.2
         | cls =>
           simp only [canonSep, hk, countNL, countNL_tabsN]
           exact ⟨by simp, by simp; omega⟩
+      | cmt =>
+        simp only [Bool.and_eq_true, beq_iff_eq] at hcond
+        have hnl : 0 < c.nl := by
+          unfold Chunk.nl
+          cases hcs : c.sep with
+          | nil => rw [hcs] at hcond; simp at hcond
+          | cons x ws =>
+            rw [hcs] at hcond
+            simp only [List.head?_cons, Option.some.injEq] at hcond
+            simp [countNL, hcond.1]; omega
+        simp only [canonSep]
+        split
+        · exact ⟨by simp, by simp [countNL]; omega⟩
+        · exact ⟨by simp, by simp [countNL]; omega⟩
+    · cases hk
+      simp only [canonSep]
+      try (split <;> rfl)
 
 /-! ### the canonical rendering is again in the fragment, and is a fixed point -/
+
+theorem kind_with_sep (c : Chunk) (sep : List Rune) : (⟨sep, c.word⟩ : Chunk).kind = c.kind := rfl
+theorem nl_mk (sep w : List Rune) : (⟨sep, w⟩ : Chunk).nl = countNL sep := rfl
 
 theorem good_canon : ∀ (cs : List Chunk) (prev : Option Kind) (N : Nat), goodFrom prev cs = true →
     goodFrom prev (canon prev N cs) = true
@@ -347,80 +521,92 @@ theorem good_canon : ∀ (cs : List Chunk) (prev : Option Kind) (N : Nat), goodF
       (by simp only [goodFrom, Bool.and_eq_true] at hg; exact hg.2)
     simp only [goodFrom, Bool.and_eq_true] at hg
     obtain ⟨⟨⟨-, hw⟩, hcond⟩, -⟩ := hg
-    have hkind : (⟨canonSep prev N c, c.word⟩ : Chunk).kind = c.kind := rfl
-    have hnl : (⟨canonSep prev N c, c.word⟩ : Chunk).nl = countNL (canonSep prev N c) := rfl
-    simp only [canon, goodFrom, Bool.and_eq_true]
-    refine ⟨⟨⟨hprops.1, hw⟩, ?_⟩, by rw [hkind]; exact ih⟩
-    rw [hkind, hnl]
+    simp only [canon, goodFrom, Bool.and_eq_true, kind_with_sep]
+    refine ⟨⟨⟨hprops.1, hw⟩, ?_⟩, ih⟩
     cases prev with
     | none =>
       simp only [Bool.and_eq_true] at hcond ⊢
-      exact ⟨by rw [hprops.2.2 rfl]; rfl, hcond.2⟩
+      exact ⟨by rw [(hprops.2.2.1 rfl).1]; rfl, hcond.2⟩
     | some k =>
-      obtain ⟨hne, hiff⟩ := hprops.2.1 (by simp)
+      obtain ⟨hne, hiff0⟩ := hprops.2.1 (by simp)
+      have hiff : 0 < (⟨canonSep (some k) N c, c.word⟩ : Chunk).nl ↔ 0 < c.nl := hiff0
       cases k with
       | plain =>
         simp only [Bool.and_eq_true, Bool.not_eq_true', List.isEmpty_eq_false_iff] at hcond ⊢
         refine ⟨hne, ?_⟩
         cases hk : c.kind with
         | plain => rfl
+        | cmt => rfl
         | opn =>
-          rw [hk] at hcond; simp only [beq_iff_eq] at hcond ⊢
-          have := hcond.2; omega
+          rw [hk] at hcond; simp only [beq_iff_eq] at hcond
+          have := hcond.2
+          simp only [beq_iff_eq]; omega
         | cls =>
-          rw [hk] at hcond; simp only [decide_eq_true_eq] at hcond ⊢
-          have := hcond.2; omega
+          rw [hk] at hcond; simp only [decide_eq_true_eq] at hcond
+          have := hcond.2
+          simp only [decide_eq_true_eq]; omega
       | opn =>
-        simp only [Bool.and_eq_true, decide_eq_true_eq] at hcond ⊢
-        exact ⟨by have := hcond.1; omega, hcond.2⟩
+        simp only [Bool.and_eq_true, decide_eq_true_eq] at hcond
+        have := hcond.1
+        simp only [Bool.and_eq_true, decide_eq_true_eq]
+        exact ⟨by omega, hcond.2⟩
       | cls =>
-        simp only [Bool.and_eq_true, decide_eq_true_eq] at hcond ⊢
-        exact ⟨by have := hcond.1; omega, hcond.2⟩
-
-theorem kind_with_sep (c : Chunk) (sep : List Rune) : (⟨sep, c.word⟩ : Chunk).kind = c.kind := rfl
-theorem nl_mk (sep w : List Rune) : (⟨sep, w⟩ : Chunk).nl = countNL sep := rfl
+        simp only [Bool.and_eq_true, decide_eq_true_eq] at hcond
+        have := hcond.1
+        simp only [Bool.and_eq_true, decide_eq_true_eq]
+        exact ⟨by omega, hcond.2⟩
+      | cmt =>
+        simp only [Bool.and_eq_true, beq_iff_eq] at hcond ⊢
+        exact ⟨hprops.2.2.2 rfl, hcond.2⟩
 
 theorem canonSep_idem (prev : Option Kind) (N : Nat) (c : Chunk) :
     canonSep prev N ⟨canonSep prev N c, c.word⟩ = canonSep prev N c := by
+  have hplainlike : (if countNL (if c.nl = 0 then [rSP] else nlsN (min c.nl 2) ++ tabsN N) = 0 then [rSP]
+        else nlsN (min (countNL (if c.nl = 0 then [rSP] else nlsN (min c.nl 2) ++ tabsN N)) 2) ++ tabsN N)
+      = (if c.nl = 0 then [rSP] else nlsN (min c.nl 2) ++ tabsN N) := by
+    by_cases hnl : c.nl = 0
+    · simp [hnl, countNL, rSP, rNL]
+    · have h2 : min c.nl 2 ≠ 0 := by omega
+      have h3 : min (min c.nl 2) 2 = min c.nl 2 := by omega
+      simp [hnl, countNL_append, countNL_nlsN, countNL_tabsN, h2, h3]
   cases prev with
   | none => rfl
   | some k =>
     cases k with
     | opn => cases hk : c.kind <;> simp [canonSep, kind_with_sep, hk]
+    | cmt =>
+      by_cases hk : c.kind = .cls
+      · simp [canonSep, kind_with_sep, hk]
+      · have h3 : min (min (c.nl - 1) 2) 2 = min (c.nl - 1) 2 := by omega
+        simp [canonSep, kind_with_sep, nl_mk, hk, countNL, countNL_append, countNL_nlsN, countNL_tabsN, h3]
     | plain =>
       cases hk : c.kind with
       | opn => simp only [canonSep, kind_with_sep, hk]
       | cls => simp only [canonSep, kind_with_sep, hk]
-      | plain =>
-        by_cases hnl : c.nl = 0
-        · simp [canonSep, kind_with_sep, nl_mk, hk, hnl, countNL, rSP, rNL]
-        · have h2 : min c.nl 2 ≠ 0 := by omega
-          have h3 : min (min c.nl 2) 2 = min c.nl 2 := by omega
-          simp [canonSep, kind_with_sep, nl_mk, hk, hnl, countNL_append, countNL_nlsN, countNL_tabsN, h2, h3]
+      | plain => simpa [canonSep, kind_with_sep, nl_mk, hk] using hplainlike
+      | cmt => simpa [canonSep, kind_with_sep, nl_mk, hk] using hplainlike
     | cls =>
       cases hk : c.kind with
       | opn => simp only [canonSep, kind_with_sep, hk]
       | cls => simp only [canonSep, kind_with_sep, hk]
-      | plain =>
-        by_cases hnl : c.nl = 0
-        · simp [canonSep, kind_with_sep, nl_mk, hk, hnl, countNL, rSP, rNL]
-        · have h2 : min c.nl 2 ≠ 0 := by omega
-          have h3 : min (min c.nl 2) 2 = min c.nl 2 := by omega
-          simp [canonSep, kind_with_sep, nl_mk, hk, hnl, countNL_append, countNL_nlsN, countNL_tabsN, h2, h3]
+      | plain => simpa [canonSep, kind_with_sep, nl_mk, hk] using hplainlike
+      | cmt => simpa [canonSep, kind_with_sep, nl_mk, hk] using hplainlike
 
 theorem canon_idem : ∀ (cs : List Chunk) (prev : Option Kind) (N : Nat),
     canon prev N (canon prev N cs) = canon prev N cs
   | [], _, _ => rfl
   | c :: cs, prev, N => by
-    have hkind : (⟨canonSep prev N c, c.word⟩ : Chunk).kind = c.kind := rfl
-    simp only [canon, hkind, canonSep_idem, canon_idem cs]
+    simp only [canon, kind_with_sep, canonSep_idem, canon_idem cs]
 
 /-! ### line grouping of the tokens of a chunk list -/
 
-/-- the property's observable, computed from the chunks: word, unquoted, starts-a-new-line -/
-def gOf : Bool → List Chunk → List (List Rune × Rune × Bool)
-  | _, [] => []
-  | first, c :: cs => (c.word, 0, first || decide (0 < c.nl)) :: gOf false cs
+/-- the property's observable, computed from the chunks: word, unquoted, starts-a-new-line.
+    `acc` = a newline was seen since the previous token (in the separators of skipped comments). -/
+def gOf : (first acc : Bool) → List Chunk → List (List Rune × Rune × Bool)
+  | _, _, [] => []
+  | first, acc, c :: cs =>
+    if isCmtW c.word then gOf first (acc || decide (0 < c.nl)) cs
+    else (c.word, 0, first || acc || decide (0 < c.nl)) :: gOf false false cs
 
 theorem countNL_lexCh : ∀ (w : List Rune), w.all lexCh = true → countNL w = 0
   | [], _ => rfl
@@ -429,45 +615,92 @@ theorem countNL_lexCh : ∀ (w : List Rune), w.all lexCh = true → countNL w = 
     have := (lexCh_spec h.1).2.2.2.2.2.2.2
     simp [countNL, rNL, this, countNL_lexCh w h.2]
 
-theorem groupingFrom_toksOf : ∀ (cs : List Chunk) (ln : Nat) (p : Token), p.line = ln → p.numLineBreaks = 0 →
-    lexGood false cs = true → groupingFrom (some p) (toksOf ln cs) = gOf false cs
+theorem lexGood_word {first ac : Bool} {c : Chunk} {cs : List Chunk} (hg : lexGood first ac (c :: cs) = true)
+    (hc : isCmtW c.word = false) : c.word.all lexCh = true ∧ lexGood false false cs = true := by
+  simp only [lexGood, Bool.and_eq_true, hc] at hg
+  refine ⟨?_, hg.2⟩
+  have hw := hg.1.2
+  cases hcw : c.word with
+  | nil => rw [hcw] at hw; simp at hw
+  | cons h t =>
+    rw [hcw] at hw hc
+    have : (h == rHash) = false := by
+      simp only [isCmtW, List.head?_cons] at hc
+      cases hh : (h == rHash) with
+      | false => rfl
+      | true => simp only [beq_iff_eq] at hh; subst hh; simp at hc
+    simpa [this] using hw
+
+theorem groupingFrom_toksOf : ∀ (cs : List Chunk) (ln : Nat) (p : Token) (acc ac : Bool), p.numLineBreaks = 0 →
+    p.line ≤ ln → acc = decide (p.line < ln) → lexGood false ac cs = true →
+    groupingFrom (some p) (toksOf ln cs) = gOf false acc cs
+  | [], _, _, _, _, _, _, _, _ => rfl
+  | c :: cs, ln, p, acc, ac, hb, hle, hacc, hg => by
+    by_cases hc : isCmtW c.word = true
+    · have hrest : lexGood false true cs = true := by
+        simp only [lexGood, Bool.and_eq_true, hc] at hg; exact hg.2
+      simp only [toksOf, gOf, hc, ↓reduceIte]
+      exact groupingFrom_toksOf cs (ln + c.nl) p _ true hb (by omega)
+        (by subst hacc; by_cases h1 : p.line < ln <;> by_cases h2 : 0 < c.nl <;> simp [h1, h2] <;> omega) hrest
+    · have hc' : isCmtW c.word = false := by simpa using hc
+      obtain ⟨hw, hrest⟩ := lexGood_word hg hc'
+      have ih := groupingFrom_toksOf cs (ln + c.nl) ⟨ln + c.nl, c.word, 0, []⟩ false false
+        (by simp [Token.numLineBreaks, countNL_lexCh _ hw, rLT]) (Nat.le_refl _) (by simp) hrest
+      simp only [toksOf, gOf, hc', Bool.false_eq_true, ↓reduceIte, groupingFrom, ih, isNextOnNewLine, hb,
+        Bool.false_or, Nat.add_zero]
+      congr 3
+      subst hacc
+      by_cases h1 : p.line < ln <;> by_cases h2 : 0 < c.nl <;> simp [h1, h2] <;> omega
+
+theorem grouping_toksOf : ∀ (cs : List Chunk) (ln : Nat) (acc first ac : Bool), lexGood first ac cs = true →
+    grouping (toksOf ln cs) = gOf true acc cs
   | [], _, _, _, _, _ => rfl
-  | c :: cs, ln, p, hl, hb, hg => by
-    simp only [lexGood, Bool.and_eq_true] at hg
-    have hw : c.word.all lexCh = true := hg.1.1.2
-    have ih := groupingFrom_toksOf cs (ln + c.nl) ⟨ln + c.nl, c.word, 0, []⟩ rfl
-      (by simp [Token.numLineBreaks, countNL_lexCh _ hw, rLT]) hg.2
-    simp only [toksOf, groupingFrom, gOf, ih, isNextOnNewLine, hl, hb, Bool.false_or]
-    congr 3
-    simp
+  | c :: cs, ln, acc, first, ac, hg => by
+    by_cases hc : isCmtW c.word = true
+    · have hrest : lexGood false true cs = true := by
+        simp only [lexGood, Bool.and_eq_true, hc] at hg; exact hg.2
+      simp only [toksOf, gOf, hc, ↓reduceIte]
+      exact grouping_toksOf cs (ln + c.nl) _ false true hrest
+    · have hc' : isCmtW c.word = false := by simpa using hc
+      obtain ⟨hw, hrest⟩ := lexGood_word hg hc'
+      have := groupingFrom_toksOf cs (ln + c.nl) ⟨ln + c.nl, c.word, 0, []⟩ false false
+        (by simp [Token.numLineBreaks, countNL_lexCh _ hw, rLT]) (Nat.le_refl _) (by simp) hrest
+      simp only [grouping, toksOf, gOf, hc', Bool.false_eq_true, ↓reduceIte, groupingFrom, this, Bool.true_or]
 
-theorem grouping_toksOf (c : Chunk) (cs : List Chunk) (ln : Nat) (hg : lexGood true (c :: cs) = true) :
-    grouping (toksOf ln (c :: cs)) = gOf true (c :: cs) := by
-  simp only [lexGood, Bool.and_eq_true] at hg
-  have hw : c.word.all lexCh = true := hg.1.1.2
-  have := groupingFrom_toksOf cs (ln + c.nl) ⟨ln + c.nl, c.word, 0, []⟩ rfl
-    (by simp [Token.numLineBreaks, countNL_lexCh _ hw, rLT]) hg.2
-  simp only [grouping, toksOf, groupingFrom, gOf, this, Bool.true_or]
+/-- with `first = true` neither the accumulator nor the first separator matters -/
+theorem gOf_true_irrel : ∀ (cs : List Chunk) (acc acc' : Bool), gOf true acc cs = gOf true acc' cs
+  | [], _, _ => rfl
+  | c :: cs, acc, acc' => by
+    simp only [gOf, Bool.true_or]
+    split
+    · exact gOf_true_irrel cs _ _
+    · rfl
 
-theorem gOf_canon : ∀ (cs : List Chunk) (prev : Option Kind) (N : Nat), goodFrom prev cs = true →
-    gOf (prev == none) (canon prev N cs) = gOf (prev == none) cs
-  | [], _, _, _ => rfl
-  | c :: cs, prev, N, hg => by
+theorem gOf_true_sep (sep sep' w : List Rune) (cs : List Chunk) (acc : Bool) :
+    gOf true acc (⟨sep, w⟩ :: cs) = gOf true acc (⟨sep', w⟩ :: cs) := by
+  simp only [gOf, Bool.true_or]
+  split
+  · exact gOf_true_irrel cs _ _
+  · rfl
+
+theorem gOf_canon : ∀ (cs : List Chunk) (prev : Option Kind) (N : Nat) (first acc : Bool), goodFrom prev cs = true →
+    gOf first acc (canon prev N cs) = gOf first acc cs
+  | [], _, _, _, _, _ => rfl
+  | c :: cs, prev, N, first, acc, hg => by
     have hprops := canonSep_props (N := N) hg
-    have ih := gOf_canon cs (some c.kind) (nextN N c.kind)
-      (by simp only [goodFrom, Bool.and_eq_true] at hg; exact hg.2)
-    have hnl : (⟨canonSep prev N c, c.word⟩ : Chunk).nl = countNL (canonSep prev N c) := rfl
-    simp only [canon, gOf, hnl]
-    have e : (some c.kind == none) = false := rfl
-    rw [e] at ih
-    rw [ih]
-    congr 3
-    cases prev with
-    | none => rfl
-    | some k =>
-      have := (hprops.2.1 (by simp)).2
-      simp only [show (some k == none) = false from rfl, Bool.false_or]
-      exact decide_eq_decide.mpr this
+    have hg' : goodFrom (some c.kind) cs = true := by
+      simp only [goodFrom, Bool.and_eq_true] at hg; exact hg.2
+    have hbit : decide (0 < (⟨canonSep prev N c, c.word⟩ : Chunk).nl) = decide (0 < c.nl) := by
+      cases prev with
+      | none =>
+        obtain ⟨h1, h2⟩ := hprops.2.2.1 rfl
+        rw [h1, h2]; rfl
+      | some k => exact decide_eq_decide.mpr (hprops.2.1 (by simp)).2
+    simp only [canon, gOf]
+    rw [hbit]
+    split
+    · exact gOf_canon cs _ _ _ _ hg'
+    · rw [gOf_canon cs _ _ _ _ hg']
 
 /-! ### `Tokenize` and `Format` on an input of the fragment -/
 
@@ -481,25 +714,34 @@ theorem tokenize_on_chunks {lead trail : List Rune} {c : Chunk} {cs : List Chunk
     (hl : lead.all wsCh = true) (ht : trail.all wsCh = true) (hs : c.sep = [])
     (hg : goodFrom none (c :: cs) = true) :
     tokenize (lead ++ (flatten (c :: cs) ++ trail)) = .ok (toksOf 1 (⟨lead, c.word⟩ :: cs)) ∧
-      lexGood true (⟨lead, c.word⟩ :: cs) = true := by
+      lexGood true false (⟨lead, c.word⟩ :: cs) = true := by
   have hlg := good_lexGood _ _ hg
-  have hlg' : lexGood true (⟨lead, c.word⟩ :: cs) = true := by
-    simp only [lexGood, Bool.and_eq_true, show (none == (none : Option Kind)) = true from rfl] at hlg ⊢
-    exact ⟨⟨⟨⟨hl, hlg.1.1.1.2⟩, hlg.1.1.2⟩, by simp⟩, hlg.2⟩
+  simp only [show (none == (none : Option Kind)) = true from rfl,
+    show ((none : Option Kind) == some Kind.cmt) = false from rfl] at hlg
+  have hlg' : lexGood true false (⟨lead, c.word⟩ :: cs) = true := by
+    simp only [lexGood, Bool.and_eq_true] at hlg ⊢
+    exact ⟨⟨⟨⟨hl, by simp⟩, by simp⟩, hlg.1.2⟩, hlg.2⟩
   refine ⟨?_, hlg'⟩
   have hx : lead ++ (flatten (c :: cs) ++ trail) = flatten (⟨lead, c.word⟩ :: cs) ++ trail := by
     simp [flatten, hs, List.append_assoc]
   -- the input is non-empty and does not start with a byte-order mark
-  simp only [lexGood, Bool.and_eq_true, Bool.not_eq_true', List.isEmpty_eq_false_iff] at hlg'
-  obtain ⟨a, w, hw⟩ : ∃ a w, c.word = a :: w := by
+  have hwd : (match c.word with
+     | [] => false
+     | h :: t => (h == rHash && t.all cmtCh) || (h :: t).all lexCh) = true := by
+    simp only [lexGood, Bool.and_eq_true] at hlg; exact hlg.1.2
+  obtain ⟨a, w, hw, habom⟩ : ∃ a w, c.word = a :: w ∧ a ≠ rBOM := by
     cases hcw : c.word with
-    | nil => exact absurd hcw hlg'.1.1.1.2
-    | cons a w => exact ⟨a, w, rfl⟩
-  have hall := hlg'.1.1.2
-  simp only [hw, List.all_cons, Bool.and_eq_true] at hall
+    | nil => rw [hcw] at hwd; simp at hwd
+    | cons a w =>
+      refine ⟨a, w, rfl, ?_⟩
+      rw [hcw] at hwd
+      simp only [Bool.or_eq_true, Bool.and_eq_true, beq_iff_eq, List.all_cons] at hwd
+      rcases hwd with hwd | hwd
+      · rw [hwd.1]; decide
+      · exact (lexCh_spec hwd.1).2.2.2.2.2.2.1
   have hfirst : ∃ b r, flatten (⟨lead, c.word⟩ :: cs) ++ trail = b :: r ∧ b ≠ rBOM := by
     cases lead with
-    | nil => exact ⟨a, w ++ (flatten cs ++ trail), by simp [flatten, hw], (lexCh_spec hall.1).2.2.2.2.2.2.1⟩
+    | nil => exact ⟨a, w ++ (flatten cs ++ trail), by simp [flatten, hw], habom⟩
     | cons b r =>
       simp only [List.all_cons, Bool.and_eq_true] at hl
       refine ⟨b, r ++ (c.word ++ (flatten cs ++ trail)), by simp [flatten], ?_⟩
@@ -508,8 +750,7 @@ theorem tokenize_on_chunks {lead trail : List Rune} {c : Chunk} {cs : List Chunk
       simp [isSpace, rBOM] at this
   obtain ⟨b, r, hbr, hb⟩ := hfirst
   rw [hx]
-  have := (lex_chunks trail ht (cs.length + 1)).1 (⟨lead, c.word⟩ :: cs) true 1 [] (by simp)
-    (by simp only [lexGood, Bool.and_eq_true, Bool.not_eq_true', List.isEmpty_eq_false_iff]; exact hlg')
+  have := (lex_chunks trail ht (cs.length + 1)).1 (⟨lead, c.word⟩ :: cs) true 1 [] (by simp) hlg'
   unfold tokenize
   rw [hbr] at this ⊢
   simp only [List.isEmpty_cons, Bool.false_eq_true, ↓reduceIte, dropBOM, hb]
@@ -537,13 +778,12 @@ theorem W_core {lead trail : List Rune} {c : Chunk} {cs : List Chunk}
     rw [hcanon] at hg2 ⊢
     rw [(tokenize_on_chunks (lead := []) (by rfl) hnl rfl hg2).1]
     simp only [sameMeaning]
-    rw [grouping_toksOf _ _ _ (tokenize_on_chunks hl ht hs hg).2,
-      grouping_toksOf _ _ _ (tokenize_on_chunks (lead := []) (by rfl) hnl rfl hg2).2]
-    have h1 := gOf_canon (c :: cs) none 0 hg
+    rw [grouping_toksOf _ _ false _ _ (tokenize_on_chunks hl ht hs hg).2,
+      grouping_toksOf _ _ false _ _ (tokenize_on_chunks (lead := []) (by rfl) hnl rfl hg2).2]
+    have h1 := gOf_canon (c :: cs) none 0 true false hg
     rw [hcanon] at h1
-    simp only [show (none == (none : Option Kind)) = true from rfl] at h1
-    simp only [gOf, Bool.true_or] at h1 ⊢
-    rw [h1]; simp
+    rw [h1, gOf_true_sep lead c.sep c.word cs false]
+    simp
   · -- idempotence
     unfold idempotentAt
     rw [hfmt, hfmt2]
